@@ -136,7 +136,8 @@ func forwarderEngine(args []string) error {
 		}
 		ups = append(ups, u)
 	}
-	domPool := []string{"corp", "corp.", "example.corp", "a.example.corp.", "local", "notcorp", "rp", "example", "x.y.z", "internal.lan.", "lan"}
+	domPool := []string{"corp", "corp.", "example.corp", "a.example.corp.", "local", "notcorp", "rp", "example", "x.y.z", "internal.lan.", "lan",
+		"dev-1.corp", "_svc.corp.", "db1.corp", "my_host-2.lan", "0.corp"}
 	for i := 0; i < c.n; i++ {
 		// forwarder list
 		nf := r.rng(1, 5)
@@ -201,6 +202,16 @@ func forwarderEngine(args []string) error {
 				name = "www." + base
 			}
 			name = randCase(r, strings.TrimSuffix(name, "."))
+			if r.coin(25) && len(name) > 0 {
+				// a near miss: one byte of the name differs from the rule's in a single bit (digits, hyphens,
+				// underscores and the dots between labels included); the result stays ASCII
+				b := []byte(name)
+				p := r.intn(len(b))
+				if nb := b[p] ^ []byte{0x20, 0x20, 0x01, 0x40, 0x10}[r.intn(5)]; nb < 0x80 && nb != '.' {
+					b[p] = nb
+				}
+				name = string(b)
+			}
 			ms := msgSpec{id: r.intn(65536), flags: 0x0100, qs: [][]byte{question(encodeName(name), 1, 1)}}
 			payload := ms.encode()
 			q, err := query.New(payload, net.IP{127, 0, 0, 9}, net.IP{127, 0, 0, 1})
